@@ -119,7 +119,23 @@ Theorem C16_wellformed_histories :
 Proof. exact run_W. Qed.
 Print Assumptions C16_wellformed_histories.
 
-(* the side condition [rot_guarded] cannot be dropped: a rotation into an address that already holds a
+(* With the rotation check (rot_check = true, fixes/C16-rotation-target-has-records.patch: both
+   rotations refuse a target that already holds identity records) the side condition disappears:
+   the two statements hold over ARBITRARY operation lists - registers, edits, deletes, requests,
+   approvals, rejections, cancels, claims, unique-key-list changes by proposal and by message, both
+   rotations, genesis round trips. *)
+Theorem C16_only_owner_edits_always :
+  forall ops s o s', W s -> del_fix s = true -> rot_check s = true ->
+  step (run s ops) o = Ok s' -> owner_frame (run s ops) o s'.
+Proof. exact only_owner_edits_always. Qed.
+Print Assumptions C16_only_owner_edits_always.
+Theorem C16_edit_drops_always :
+  forall ops s o s', W s -> del_fix s = true -> rot_check s = true ->
+  step (run s ops) o = Ok s' -> edit_drops_full (run s ops) s'.
+Proof. exact edit_drops_always. Qed.
+Print Assumptions C16_edit_drops_always.
+
+(* without that check (the tree as it is) the side condition [rot_guarded] cannot be dropped: a rotation into an address that already holds a
    record under the same key leaves that record un-indexed (the invariant fails) *)
 Theorem C16_rotation_guard_needed :
   exists s ops, W s /\ del_fix s = true /\ ~ rot_guarded s ops /\ ~ W (run s ops).
@@ -181,10 +197,10 @@ Proof. exact chk_sound_unique. Qed.
 Print Assumptions C16_chk_sound_unique.
 
 (* ---------------------------------------------------------------- non-vacuity *)
-Definition s1 : state := init_state "moniker,username" 0 [0] [1] [6] [0; 1; 2; 3] [0; 1; 2; 3] bal0 true true [].
-Example C16_nonvacuous_wellformed : W s1 /\ del_fix s1 = true /\ msg_guard s1 = true /\ KU s1 /\ MK s1 /\ LU s1.
+Definition s1 : state := init_state "moniker,username" 0 [0] [1] [6] [0; 1; 2; 3] [0; 1; 2; 3] bal0 true true [] true.
+Example C16_nonvacuous_wellformed : W s1 /\ del_fix s1 = true /\ rot_check s1 = true /\ msg_guard s1 = true /\ KU s1 /\ MK s1 /\ LU s1.
 Proof.
-  split; [apply W_init|split; [reflexivity|split; [reflexivity|split; [split; intros r; simpl; tauto|split; vm_compute; reflexivity]]]].
+  split; [apply W_init|split; [reflexivity|split; [reflexivity|split; [reflexivity|split; [split; intros r; simpl; tauto|split; vm_compute; reflexivity]]]]].
 Qed.
 (* a guarded history with a rotation, after which the NEW owner edits and the old one cannot *)
 Example C16_nonvacuous_rotation :
